@@ -367,8 +367,10 @@ def mon_goaway(ctx, conn):
 CONN_OFFENCE_CODES = {
     0: {FRAME_SIZE}, 1: {FRAME_SIZE}, 2: {PROTOCOL}, 3: {PROTOCOL}, 4: {PROTOCOL}, 5: {PROTOCOL}, 6: {FLOW}, 7: {PROTOCOL},
     8: {PROTOCOL}, 9: {FLOW}, 10: {COMPRESSION}, 11: {PROTOCOL}, 12: {PROTOCOL}, 13: {PROTOCOL}, 14: {FRAME_SIZE},
-    15: {PROTOCOL}, 16: {PROTOCOL}, 17: {0}, 18: {PROTOCOL, STREAM_CLOSED},
+    15: {PROTOCOL}, 16: {PROTOCOL}, 17: {0}, 18: {PROTOCOL, STREAM_CLOSED}, 19: {PROTOCOL}, 20: {COMPRESSION},
 }
+
+STREAM_SCOPED_BY_RFC = {19}     # a trailer section without END_STREAM that goes on in CONTINUATION
 
 
 def mon_conn_offence(ctx, conn):
@@ -409,6 +411,12 @@ def mon_conn_offence(ctx, conn):
             viol(ctx, conn, "connection-still-open-with-nothing-promised-left", dict(offence=kind, after=conn.steps[si - 1][0][:80] if si else "-"),
                  known_class="goaway-never-closes:" + (ga[2] if ga else "-"))
             break
+    if ga is None and kind in STREAM_SCOPED_BY_RFC:
+        # RFC 7540 classes this offence as a stream error (the server escalates it: the rest of F67, F23's obstacle):
+        # an answer on the stream alone is an answer too, and then nothing here applies
+        for si, (op, out) in enumerate(conn.steps):
+            if si >= at and any(n == "RST" and a.split(",")[1] == str(PROTOCOL) for n, a in parse_out(out)):
+                return
     if ga is None and not returned:
         viol(ctx, conn, "connection-offence-not-answered", dict(offence=kind))
         return
@@ -814,7 +822,7 @@ def run_c06(ctx):
 def run_c08(ctx):
     import c08spec
     return run_family(ctx, ["srv-state"], [c08spec.mon_reactions],
-                      "srv-state: every frame sequence of length <= 2 over 21 symbols x 4 stream selectors on a fresh connection, plus seeded sequences of length 3-7 (thorough: 40000).")
+                      "srv-state: every frame sequence of length <= 2 over 23 symbols x 4 stream selectors on a fresh connection, plus seeded sequences of length 3-7 (thorough: 40000).")
 
 
 def mon_goaway_only_truth(ctx, conn):
@@ -842,7 +850,7 @@ def run_c09(ctx):
             viol(ctx, conn, "stream-error-tore-down-connection", dict(site=site),
                  known_class=cls if (site == "compression" and cls) else "stream-offence-goaway:" + site)
     return run_family(ctx, ["srv-err"], [mon, mon_recv_credit_soft],
-                      "srv-err: 2-8 streams per connection, 40% offending (11 stream-scoped offences: malformed header, missing pseudo-header, peer RST at two points, handler panic, stream window overflow, content-length mismatch, connection-specific field, DATA after the server's RST, zero increment) or refused at the limit, the peer's encoder indexing entries from offending blocks.")
+                      "srv-err: 2-8 streams per connection, 40% offending (12 stream-scoped offences: malformed header, missing pseudo-header, peer RST at two points, handler panic, stream window overflow, content-length mismatch, connection-specific field, DATA after the server's RST, zero increment, a trailer section without END_STREAM) or refused at the limit, the peer's encoder indexing entries from offending blocks.")
 
 
 def mon_recv_credit_soft(ctx, conn):
@@ -851,7 +859,7 @@ def mon_recv_credit_soft(ctx, conn):
 
 def run_c10(ctx):
     return run_family(ctx, ["srv-goaway", "srv-acct"], [lambda c, k: mon_goaway(c, k) and None, mon_conn_offence],
-                      "srv-goaway: one of 19 connection-scoped offences (frame size, CONTINUATION sequencing, even/lower stream id, SETTINGS values, flow-control, compression, frames on idle streams, idle timeout) after 0-3 requests (some still running) with trailing requests/pings.")
+                      "srv-goaway: one of 21 connection-scoped offences (frame size, CONTINUATION sequencing, even/lower stream id, SETTINGS values, flow-control, compression, frames on idle streams, idle timeout, a trailer section without END_STREAM that goes on in CONTINUATION or cannot be decoded) after 0-3 requests (some still running) with trailing requests/pings.")
 
 
 def run_c13(ctx):
